@@ -15,9 +15,17 @@ B(x) == IF x THEN 1 ELSE 0
 NFaults(g) ==
   B(g.c # "next") + B(g.meth # "POST") + B(g.ct # "grpc") + B(g.te # "trailers") + B(g.to # "none") + B(g.au # "one")
   + B(g.conn) + B(g.bin # "none") + B(g.big # "no") + B(g.es)
-\* the request shapes of this configuration (a constant: TLC evaluates it once)
-Shapes == {g \in [c : SidC, meth : MethV, ct : CtV, te : TeV, to : ToV, au : AuV, conn : BOOLEAN,
-                  bin : BinV, big : BigV, es : BOOLEAN] : NFaults(g) <= MaxFaults}
+\* the request shapes of this configuration: all attribute combinations with at most MaxFaults deviations.
+\* Built attribute by attribute with pruning (a constant: TLC evaluates it once); equals
+\* {g \in [c : SidC, ..., es : BOOLEAN] : NFaults(g) <= MaxFaults}  (ASSUME-checked below for MaxFaults <= 1).
+Ext(P, V, def) == {q \in {<<Append(p[1], v), p[2] + (IF v = def THEN 0 ELSE 1)>> : p \in P, v \in V} : q[2] <= MaxFaults}
+Shapes ==
+  LET P10 == Ext(Ext(Ext(Ext(Ext(Ext(Ext(Ext(Ext(Ext({<< <<>>, 0 >>}, SidC, "next"), MethV, "POST"), CtV, "grpc"), TeV, "trailers"),
+                 ToV, "none"), AuV, "one"), BOOLEAN, FALSE), BinV, "none"), BigV, "no"), BOOLEAN, FALSE)
+  IN {[c |-> p[1][1], meth |-> p[1][2], ct |-> p[1][3], te |-> p[1][4], to |-> p[1][5], au |-> p[1][6], conn |-> p[1][7],
+       bin |-> p[1][8], big |-> p[1][9], es |-> p[1][10]] : p \in P10}
+ASSUME MaxFaults > 1 \/ Shapes = {g \in [c : SidC, meth : MethV, ct : CtV, te : TeV, to : ToV, au : AuV, conn : BOOLEAN,
+                                          bin : BinV, big : BigV, es : BOOLEAN] : NFaults(g) <= MaxFaults}
 Init == PInit /\ nev = 0 /\ nreq = 0 /\ lastSid = 0
 Tick == nev < MaxEvents /\ nev' = nev + 1
 ReqT(g) ==
